@@ -37,6 +37,7 @@ pub struct Report {
     pub tripped_at: Option<u64>,  // index of the first query that was answered "out of time"
     pub depth_started: u8,        // highest iteration that was started
     pub events: Vec<Ev>,
+    pub event_queries: Vec<u64>,  // number of clock queries answered before each event
     pub max_ply: i32,
     pub nodes: u64,
     pub null_entry_queries: Vec<u64>, // clock-query index at which each null-move child was entered
@@ -120,6 +121,8 @@ pub fn iteration_start(depth: u8) {
             t.tripped = true;
         } else {
             t.rep.depth_started = depth;
+            let q = t.rep.queries;
+            t.rep.event_queries.push(q);
             t.rep.events.push(Ev::IterStart(depth));
         }
     });
@@ -389,6 +392,8 @@ pub fn capture(msg: &str) -> bool {
     let swallowed_tl = TL.with(|t| {
         let mut t = t.borrow_mut();
         if t.armed {
+            let q = t.rep.queries;
+            t.rep.event_queries.push(q);
             t.rep.events.push(Ev::Line(msg.to_string()));
             true
         } else {
@@ -412,6 +417,8 @@ pub fn on_send(b: &BoardState, fallback: bool) {
     let armed = TL.with(|t| {
         let mut t = t.borrow_mut();
         if t.armed {
+            let q = t.rep.queries;
+            t.rep.event_queries.push(q);
             t.rep.events.push(Ev::Send(Box::new(b.clone()), fallback));
         }
         t.armed
